@@ -23,7 +23,9 @@ use adf_bdd::adfbiodivine::Adf as BdAdf;
 use adf_bdd::obdd::Bdd;
 use adf_bdd::parser::AdfParser;
 
-use crate::config::{AppState, RunningInfo, Task, ADF_COLL, COMPUTE_TIME, DB_NAME, USER_COLL};
+use crate::config::{
+    AppState, RunningGuard, RunningInfo, Task, ADF_COLL, COMPUTE_TIME, DB_NAME, USER_COLL,
+};
 use crate::user::{username_exists, User};
 
 use crate::double_labeled_graph::DoubleLabeledGraph;
@@ -409,6 +411,10 @@ async fn add_adf_problem(
                 .lock()
                 .unwrap()
                 .insert(running_info.clone());
+            let _running_guard = RunningGuard {
+                app_state: app_state.clone(),
+                running_info: running_info.clone(),
+            };
 
             #[cfg(feature = "mock_long_computations")]
             std::thread::sleep(Duration::from_secs(20));
@@ -571,6 +577,10 @@ async fn solve_adf_problem(
                 .lock()
                 .unwrap()
                 .insert(running_info.clone());
+            let _running_guard = RunningGuard {
+                app_state: app_state.clone(),
+                running_info: running_info.clone(),
+            };
 
             #[cfg(feature = "mock_long_computations")]
             std::thread::sleep(Duration::from_secs(20));
